@@ -265,6 +265,36 @@ func checkC09(c *Ctx) {
 		}
 	}
 
+	// ---- C09.21 duplicate detection and the sweep agree on what is tracked: registrationExists answers "not tracked" only
+	// when a table lookup missed - never for an entry that is present but "about to go" (the sweep removes by key what it
+	// collected earlier; an entry re-created under that key in between is deleted right after it was announced)
+	r.Rule("C09.21", "registrationExists says 'not tracked' only on a lookup miss", 1)
+	if f := c.fn("C09.21", "pkg/station/lib", "RegisteredDecoys", "registrationExists"); f != nil {
+		n, bad := 0, false
+		var pos token.Pos = f.Pos()
+		eachInstr(f, func(in ssa.Instruction) {
+			ret, ok := in.(*ssa.Return)
+			if !ok || len(ret.Results) != 1 {
+				return
+			}
+			cst, isC := returnedValue(ret, 0, nil).(*ssa.Const)
+			if !isC || cst.Value != nil {
+				return
+			}
+			n++
+			if !guardedM(f, in, func(cnd string, pol bool) bool { return !pol && strings.HasSuffix(cnd, "]#1") }) {
+				bad = true
+				pos = in.Pos()
+			}
+		})
+		if n == 0 {
+			r.Unk("C09.21", "registrationExists: 'not tracked' returns", f.Pos(), fnName(f), "no return of nil found")
+		} else {
+			r.Check(!bad, "C09.21", "registrationExists: nil only behind a missed lookup", pos, fnName(f), fmt.Sprintf("%d nil return(s), each dominated by a comma-ok miss", n),
+				"an entry that is present in the table can be reported as not tracked (a time or state test decides): the delivery re-creates it under the same key and announces it as new, and the sweep - which collected that key earlier - removes the new entry: announced, then gone, with no serial order that explains it")
+		}
+	}
+
 	// ---- C09.19 no update is lost to a table swap (shared with C08.11)
 	checkTablesNeverReplaced(c, "C09.19")
 
